@@ -22,7 +22,7 @@ MCNext ==
 MCSpec == MCInit /\ [][MCNext]_vars
 
 State == [conn |-> conn, loaded |-> loaded, pa |-> pa, ra |-> ra, srtt |-> srtt, guard |-> guard,
-          ceil |-> ceil, latched |-> latched, rec |-> rec, pulled |-> pulled]
+          ceil |-> ceil, latched |-> latched, rec |-> rec, pulled |-> pulled, gated |-> gated]
 
 (* what the monitor allows at this decision (property level), next to the exact post-state *)
 Emit == (Export /\ act' = "Select") =>
